@@ -224,7 +224,7 @@ contract(
     ensures=[Clause("text", P18 | {"C06"}, _dur_text)],
     result=Str,
     concretize=_concretize_td,
-    gen=_gen_td,
+    gen=_gen_td, prefer="cvc5",
     note="whole-second timedeltas (microseconds == 0) in the full timedelta range; float quotients modelled "
          "with the IEEE-754 relative-error bound",
 )
